@@ -345,3 +345,96 @@ NOT_COVERED = [
     "two registries sharing one Library",
     "the tag formatter is modelled as a deterministic function of (registry, name) that may raise ValueError",
 ]
+
+
+# ------------------------------------------------------------------------------------------- replay on the real code
+def _registry_battery(model, ob):
+    """every register / unregister / get / all / clear sequence up to length 4 over 3 names and 2 classes on a real
+    ComponentRegistry with its own Library (default formatter and a shorthand formatter that maps two names to ONE tag,
+    plus a protected tag), against a dict: results, exact exceptions, state unchanged on error, library tags = tags in use"""
+    import itertools
+    from django.conf import settings
+    if not settings.configured:
+        from tests.django_test_setup import setup_test_config
+        setup_test_config({"autodiscover": False})
+    from django.template import Library
+    from django_components import AlreadyRegistered, Component, ComponentRegistry, NotRegistered, RegistrySettings, TagProtectedError
+    from django_components.library import mark_protected_tags
+    from django_components.tag_formatter import ShorthandComponentFormatter
+
+    class A(Component):
+        template = "a"
+
+    class Bc(Component):
+        template = "b"
+    names = ["x", "y", "slot"]
+    ops_ = [("register", n, c) for n in names for c in (A, Bc)] + [("unregister", n, None) for n in names] + [("get", "x", None), ("all", None, None), ("clear", None, None)]
+    for fmt_name, fmt in (("component", None), ("shorthand", ShorthandComponentFormatter())):
+        for n in range(1, 5):
+            for seq in itertools.product(ops_, repeat=n):
+                if n == 4 and seq[0][0] != "register":
+                    continue
+                lib = Library()
+                lib.tags["slot"] = lambda parser, token: None           # a tag the registry does not own (protected)
+                mark_protected_tags(lib, ["slot"])
+                rs = RegistrySettings(tag_formatter=fmt) if fmt is not None else None
+                reg = ComponentRegistry(library=lib, settings=rs)
+                ref = {}
+                for step, (op, name, cls) in enumerate(seq):
+                    before = dict(ref)
+                    err = None
+                    try:
+                        if op == "register":
+                            reg.register(name, cls)
+                        elif op == "unregister":
+                            reg.unregister(name)
+                        elif op == "get":
+                            got = reg.get(name)
+                        elif op == "all":
+                            got = reg.all()
+                        else:
+                            reg.clear()
+                    except Exception as e:
+                        err = e
+                    want_err = None
+                    protected = fmt_name == "shorthand" and name == "slot"
+                    if op == "register":
+                        if name in ref and ref[name] is not cls:
+                            want_err = AlreadyRegistered
+                        elif protected:
+                            want_err = TagProtectedError
+                        else:
+                            ref[name] = cls
+                    elif op == "unregister":
+                        if name not in ref:
+                            want_err = NotRegistered
+                        else:
+                            del ref[name]
+                    elif op == "get":
+                        if name not in ref:
+                            want_err = NotRegistered
+                    elif op == "clear":
+                        ref = {}
+                    tags_in_use = {("component" if fmt_name == "component" else nm) for nm in ref}
+                    lib_tags = set(lib.tags) - {"slot"}
+                    bad = None
+                    if (type(err) if err else None) is not want_err:
+                        bad = f"raised {type(err).__name__ if err else 'nothing'}, dictionary semantics say {want_err.__name__ if want_err else 'nothing'}"
+                    elif err is None and op == "get" and got is not ref[name]:
+                        bad = "get returned another class"
+                    elif err is None and op == "all" and got != ref:
+                        bad = f"all() == {got}"
+                    elif reg.all() != (before if want_err else ref):
+                        bad = f"registry holds {sorted(reg.all())}"
+                    elif "slot" not in lib.tags:
+                        bad = "the protected tag `slot` was removed from the library"
+                    elif lib_tags != tags_in_use:
+                        bad = f"library tags {sorted(lib_tags)} but tags in use {sorted(tags_in_use)}"
+                    if bad:
+                        return {"confirmed": True, "function": "ComponentRegistry", "inputs": {"formatter": fmt_name, "operations": [f"{o}({nm or ''}{',' + c.__name__ if c else ''})" for o, nm, c in seq[:step + 1]]},
+                                "expected": f"dictionary {sorted(before if want_err else ref)}", "observed": bad}
+    return {"confirmed": False}
+
+
+for _m in ("register", "unregister", "get", "all", "clear", "_register_to_library"):
+    REG.replays[f"{MOD}:ComponentRegistry.{_m}"] = _registry_battery
